@@ -1,5 +1,104 @@
-"""R07.3 — who may write a protected file (placeholder until the path folder exists)."""
+"""R07.3 — who may write a protected file (WHO-MAY).
+
+A write-mode builtin open / os.open / os.fdopen, os.rename / os.replace, shutil.move whose path expression
+*resolves* (one level of local definitions inlined) to a protected name must be inside dulwich/file.py, i.e. go
+through the lock protocol.  Sites whose path does not resolve to a protected name are counted and listed in the
+evidence, never reported.
+"""
+from __future__ import annotations
+
+import ast
+import re
+
+from sa.load import Program, arg_of, callee_name, dotted, norm
+
+# Role table: files the repository itself writes through GitFile somewhere (confirmed by reading: refs,
+# packed-refs, index, config, shallow, info/alternates, commit-graph, multi-pack-index) plus the reftable backend's
+# tables.list.  Deliberately NOT in the table: HEAD of a work tree that is being created (worktree.py, repo.py:
+# the file does not exist before and nobody reads an unregistered work tree), brand-new uniquely named reftable
+# table files, and pack indexes written by `dulwich pack-objects` to a user-chosen basename (cli.py).
+PROTECTED = [
+    (re.compile(r"""['"]refs['"]\s*,\s*['"]bisect['"]|refs/bisect"""), "ref file (refs/bisect/*)"),
+    (re.compile(r"""\brefpath\(|['"]refs['"],\s*['"](heads|tags|remotes)['"]"""), "ref file"),
+    (re.compile(r"""packed-refs"""), "packed-refs"),
+    (re.compile(r"""tables\.list"""), "reftable tables.list"),
+    (re.compile(r""",\s*b?['"]index['"]\)$|\bindex_path\(\)"""), "index"),
+    (re.compile(r""",\s*b?['"]config['"]\)$"""), "config"),
+    (re.compile(r""",\s*b?['"]shallow['"]\)$"""), "shallow"),
+    (re.compile(r"""alternates"""), "info/alternates"),
+    (re.compile(r"""commit-graph|multi-pack-index"""), "commit-graph / multi-pack-index"),
+]
 
 
-def run(prog, rep):
-    return
+def _write_mode(c: ast.Call) -> bool:
+    d = dotted(c.func)
+    if d in ("open", "io.open"):
+        mode = arg_of(c, 1, "mode")
+        if mode is None:
+            return False
+        t = norm(mode)
+        return any(ch in t for ch in ("w", "a", "x", "+"))
+    if d == "os.open":
+        return any(f in norm(c) for f in ("O_WRONLY", "O_RDWR", "O_CREAT", "O_TRUNC", "O_APPEND"))
+    return d in ("os.rename", "os.replace", "shutil.move")
+
+
+def resolve(mod, f, e: ast.AST, depth=0) -> str:
+    """Text of a path expression with local single-assignment names inlined (depth 2)."""
+    txt = norm(e, 400)
+    if f is None or depth > 1:
+        return txt
+    for n in {x.id for x in ast.walk(e) if isinstance(x, ast.Name)}:
+        defs = [s for s in ast.walk(f.node) if isinstance(s, ast.Assign) and len(s.targets) == 1
+                and isinstance(s.targets[0], ast.Name) and s.targets[0].id == n]
+        if len(defs) == 1:
+            txt = re.sub(rf"\b{re.escape(n)}\b", resolve(mod, f, defs[0].value, depth + 1).replace("\\", "\\\\"), txt)
+    return txt
+
+
+def run(prog: Program, rep):
+    rep.rule("R07.3", "WHO-MAY: write-mode open / rename of a path that resolves to a protected name (refs, HEAD, packed-refs, "
+                      "index, config, shallow, alternates, commit-graph, midx, *.idx) happens only through dulwich/file.py")
+    n_sites = n_resolved = 0
+    unresolved = []
+    for m in prog.modules.values():
+        if m.rel == "dulwich/file.py":
+            continue
+        for c in ast.walk(m.tree):
+            if not (isinstance(c, ast.Call) and _write_mode(c)):
+                continue
+            f = m.enclosing_func(c)
+            d = dotted(c.func)
+            targets = [c.args[-1]] if d in ("os.rename", "os.replace", "shutil.move") and len(c.args) >= 2 else (c.args[:1])
+            if not targets:
+                continue
+            n_sites += 1
+            txt = resolve(m, f, targets[0])
+            hit = None
+            for pat, what in PROTECTED:
+                if pat.search(txt):
+                    hit = what
+                    break
+            if hit is None:
+                unresolved.append(f"{m.rel}:{c.lineno}")
+                continue
+            # renames that *are* the lock protocol's own users are fine when the source is a GitFile lock; pack install
+            # renames a temp pack to .pack (not protected).  Everything else resolving to a protected name is reported.
+            n_resolved += 1
+            rep.ob("R07.3", m.rel, f.qual if f else "<module>", f"{d} of {hit}: {norm(targets[0], 60)}", False,
+                   f"{hit} is written in place with {d}(...) instead of the lock protocol: truncate-then-write is visible to "
+                   f"readers (empty or torn content), two writers are not excluded and a failed write leaves partial content",
+                   c.lineno)
+    rep.count("raw write sites outside file.py", n_sites)
+    rep.count("raw write sites resolving to a protected name", n_resolved)
+    rep.note(f"{len(unresolved)} raw write sites do not resolve to a protected name (work-tree files, temp files, "
+             f"worktree pointers, logs); first: {unresolved[:12]}")
+    # positive control: the rule's matcher must recognise a protected write when it sees one
+    probe = ast.parse("def _probe(d):\n    p = os.path.join(d, 'packed-refs')\n    with open(p, 'wb') as f:\n        f.write(b'')\n")
+    pf = probe.body[0]
+
+    class _F:
+        node = pf
+    call = next(c for c in ast.walk(pf) if isinstance(c, ast.Call) and dotted(c.func) == "open")
+    rep.ob("R07.3", "selftest/fixture", "_probe", "positive control: a raw write of packed-refs is recognised",
+           _write_mode(call) and any(p.search(resolve(None, _F, call.args[0])) for p, _ in PROTECTED), "", 0)
